@@ -35,6 +35,20 @@ def setup():
     return _ns
 
 
+def clone(value):
+    """A deep copy of the shared state that shares nothing but leaves which cannot be copied (a description parsed from
+    a live function holds the live default values: an open stream, a lock, a module)."""
+    try:
+        return copy.deepcopy(value)
+    except TypeError:
+        pass
+    if isinstance(value, dict):
+        return type(value)((k, clone(v)) for k, v in value.items())
+    if type(value) in (list, tuple):
+        return type(value)(clone(v) for v in value)
+    return value
+
+
 def _fresh():
     """Return the doctrans package to its import-time state (caches, module-level containers): every history starts
     in a process that has done nothing yet."""
@@ -116,7 +130,7 @@ def make_state(seed):
         # a parameter about which nothing but its name (and prose) is known
         desc["params"][0]["typ"] = None
         desc["params"][0]["default"] = None
-    kind = ch.weighted("kind", [("function", 3), ("method_in_class", 1), ("class", 4), ("argparse", 2)])
+    kind = ch.weighted("kind", [("function", 3), ("method_in_class", 1), ("class", 4), ("argparse", 2), ("live_function", 1)])
     with_ret = ch.chance("ret", 0.5)
     with_body = ch.chance("body", 0.6 if kind != "class" else 0.3)
     if with_ret and desc["params"] and ch.chance("retexpr", 0.6):
@@ -130,6 +144,11 @@ def make_state(seed):
     body = ["total = %s" % (desc["params"][0]["name"] if desc["params"] else "0"), "print(total)"] if with_body else None
     if kind == "function":
         src = render.render_function(desc, "train", body=body, inline_types=ch.chance("inl", 0.6))
+    elif kind == "live_function":
+        # a function held in memory, one of whose defaults is a live object that cannot be deep-copied
+        name, typ, expr = ch.choice("live_default", [("stream", "TextIO", "sys.stdout"), ("lock", "object", "threading.Lock()"), ("backend", "object", "sys")])
+        desc["params"].append({"name": name, "typ": typ, "doc": "the %s to use" % name, "default": {"code": expr}})
+        src = "import sys\nimport threading\nfrom typing import *\n\n\n" + render.render_function(desc, "train", body=body, inline_types=ch.chance("inl", 0.6))
     elif kind == "method_in_class":
         src = render.render_function(desc, "train", ftype="self", body=body)
     elif kind == "class":
@@ -146,12 +165,50 @@ def make_state(seed):
     return {"seed": seed, "kind": kind, "src": src, "with_ret": with_ret, "with_body": with_body}
 
 
+_live = {"n": 0, "dir": None, "pid": None}
+
+
+def _live_object(src, name):
+    """Import `src` as a module from a file (inspect.getsource needs the file for as long as the object is parsed) and
+    return its attribute `name`.  The directory lives as long as this worker and is removed when it exits."""
+    import atexit
+    import importlib.util
+    import shutil
+    import tempfile
+
+    if _live["dir"] is None:
+        _live["dir"], _live["pid"] = tempfile.mkdtemp(prefix="dtsim-live-"), os.getpid()
+
+        def cleanup(d=_live["dir"], pid=_live["pid"]):
+            if os.getpid() == pid:
+                shutil.rmtree(d, ignore_errors=True)
+
+        atexit.register(cleanup)
+    _live["n"] += 1
+    modname = "dtsim_live_%d" % _live["n"]
+    path = os.path.join(_live["dir"], modname + ".py")
+    with open(path, "w") as f:
+        f.write(src)
+    spec = importlib.util.spec_from_file_location(modname, path)
+    mod = importlib.util.module_from_spec(spec)
+    spec.loader.exec_module(mod)
+    return getattr(mod, name)
+
+
 def build(state):
     # the tree as doctrans' own front end hands it out (annotated with locations): find_in_ast is *specified* to
     # work on annotated trees, so "annotate, then find" differing from "find on a bare tree" is not interference
+    p = _ns.parse
+    if state["kind"] == "live_function":
+        S = p.function(_live_object(state["src"], "train"))
+        if S.get("returns") is None:
+            S["returns"] = None
+        T, U = _ns.st.ast_parse(state["src"]), _ns.st.ast_parse(state["src"])
+        for tree in (T, U):
+            tree.body = [n for n in tree.body if isinstance(n, ast.FunctionDef)]
+        return S, T, U
     T = _ns.st.ast_parse(state["src"])
     node = T.body[0]
-    p = _ns.parse
     if state["kind"] == "class":
         S = p.class_(node)
     elif state["kind"] == "argparse":
@@ -186,14 +243,14 @@ def explore(state, seq_len=3, sample4=0, only=None):
         out = {}
         for n, f in ops:
             _fresh()
-            S, T, U = copy.deepcopy((S0, T0, U0))
+            S, T, U = clone((S0, T0, U0))
             out[n] = call(f, S, T, U)
         return out
 
     def ref_one(n, f):
         def run():
             _fresh()
-            S, T, U = copy.deepcopy((S0, T0, U0))
+            S, T, U = clone((S0, T0, U0))
             return call(f, S, T, U)
         return fs.run_forked(run)
 
@@ -205,7 +262,7 @@ def explore(state, seq_len=3, sample4=0, only=None):
     # from a process in its import-time state (slower, so the length-3 level is sampled instead of enumerated).
     _fresh()
     for n, f in ops:
-        S, T, U = copy.deepcopy((S0, T0, U0))
+        S, T, U = clone((S0, T0, U0))
         call(f, S, T, U)
     hidden = _proc.dirty() if _proc is not None else []
     _fresh()
@@ -213,7 +270,7 @@ def explore(state, seq_len=3, sample4=0, only=None):
 
     def run_seq(seq):
         _fresh()
-        S, T, U = copy.deepcopy((S0, T0, U0))
+        S, T, U = clone((S0, T0, U0))
         stats["sequences"] += 1
         for k, n in enumerate(seq):
             got = call(dict(ops)[n], S, T, U)
@@ -238,7 +295,7 @@ def explore(state, seq_len=3, sample4=0, only=None):
         for n, f in ops:
             if depth == 0:
                 _fresh()
-            S2, T2, U2 = copy.deepcopy((S, T, U))
+            S2, T2, U2 = clone((S, T, U))
             got = call(f, S2, T2, U2)
             stats["calls"] += 1
             stats["sequences"] += 1
@@ -254,7 +311,7 @@ def explore(state, seq_len=3, sample4=0, only=None):
 
     if only is not None:
         _fresh()
-        S, T, U = copy.deepcopy((S0, T0, U0))
+        S, T, U = clone((S0, T0, U0))
         ok = True
         for n in only:
             f = dict(ops)[n]
@@ -272,7 +329,7 @@ def explore(state, seq_len=3, sample4=0, only=None):
         for i in range(sample4):
             seq = [ch.choice("s%d.%d" % (i, k), names) for k in range(4)]
             _fresh()
-            S, T, U = copy.deepcopy((S0, T0, U0))
+            S, T, U = clone((S0, T0, U0))
             stats["sequences"] += 1
             for k, n in enumerate(seq):
                 got = call(dict(ops)[n], S, T, U)
@@ -291,7 +348,7 @@ def minimal_culprit(ops, S0, T0, prefix, victim, ref, U0=None):
     table = dict(ops)
     for n in prefix:
         _fresh()
-        S, T, U = copy.deepcopy((S0, T0, U0))
+        S, T, U = clone((S0, T0, U0))
         call(table[n], S, T, U)
         if call(table[victim], S, T, U) != ref[victim]:
             _fresh()
